@@ -1027,7 +1027,8 @@ func (vc *VC) lockRecord(st *State, name string, args []Term) {
 		vc.set(st, "W_lockcnt", vc.q.Define("W_lockcnt", Store(cnt, Root(addr), Store(Select(cnt, Root(addr)), PathOf(addr), Add(cur, IntLit(1))))))
 	case strings.HasSuffix(name, ").Unlock"), strings.HasSuffix(name, ").RUnlock"):
 		held = False
-	case strings.HasSuffix(name, ").Broadcast"), strings.HasSuffix(name, ").Signal"):
+	case strings.HasSuffix(name, ").Broadcast"):
+		// (Signal wakes ONE waiter, which may be one that cannot proceed: it does not count as waking the waiters)
 		w := vc.get(st, "W_wakes", lockCntSort)
 		cur := Select(Select(w, Root(addr)), PathOf(addr))
 		vc.set(st, "W_wakes", vc.q.Define("W_wakes", Store(w, Root(addr), Store(Select(w, Root(addr)), PathOf(addr), Add(cur, IntLit(1))))))
